@@ -1423,6 +1423,10 @@ class Engine(object):
           self.rebuild_usercode()
         except Exception:
           log.error("Error rebuilding usercode after restoring schema: %s", traceback.format_exc())
+      # Columns deleted before the failure stay deleted (restoring the schema creates new column
+      # objects): destroy them as below, or they remain among _back_references of other tables.
+      for col in self._gone_columns:
+        col.destroy()
       raise
 
     # If any columns got deleted, destroy them to clear _back_references in other tables, and to
